@@ -104,7 +104,8 @@ INDEX_SENSITIVE = {"whole_type", "i8_many_before_later", "n255_holes", "n256_gap
                    "run_at_min_then_neg", "gapless_neg", "gapless_span0", "last_run_at_max", "narrow_limits_holes",
                    "many_runs_uneven", "many_runs_uneven_neg", "across_narrow_umax", "many_runs_40", "span_alias",
                    "span_alias_neg", "even_step_wide", "span_alias16", "gapless_pos", "two_runs", "two_runs_off", "gap1",
-                   "bitflags_zero", "bitflags_zero6", "bitflags_full", "bitflags_signbit"}
+                   "bitflags_zero", "bitflags_zero6", "bitflags_full", "bitflags_signbit",
+                   "span64_holes", "span128_neg", "span256_holes", "span448_holes"}
 
 
 def catalogue_cases(ids: IdGen, tier: str, seed: int = 1):
@@ -368,6 +369,8 @@ def c16_cases(ids: IdGen, tier: str):
     for bi, (r, vs, renames) in enumerate(base):
         seq = shapes.order_values(sorted(vs), "perm", rng)
         d = shapes.build_decl(r, seq, "c16_%02d" % bi, "mixed", renames, rng)
+        # the enum's own name is part of the scope too: B and F are what the generic parameters of the forwarded
+        # fold / rfold are called (round 6, W16a: a bound written with the bare enum identifier)
         gap = d.gapless()
         tuples = mode_tuples(gap, with_range=True) + \
             [t for t in mode_tuples(gap, with_range=False) if t["iter"] == "table_inline"]
@@ -383,6 +386,14 @@ def c16_cases(ids: IdGen, tier: str):
                 cfg_key = cfg.key()
                 group = "c16:%s:%s" % (d.key(), cfg_key)
                 cases.append(Case(ids.next(), d, cfg, ctx, {"part": "c16", "c16": group}))
+            # ... as one more context dimension: the same declaration under these names joins the group of `E`
+            # (Decl.key() does not contain the name), so it must build and give the same transcripts
+            if ti < 3:
+                import dataclasses
+                for nm in ("B", "F") if tier == "quick" else ("B", "F", "T", "I"):
+                    d2 = dataclasses.replace(d, name=nm)
+                    cases.append(Case(ids.next(), d2, legalize(cfg_all(t, without=without), d2), "plain",
+                                      {"part": "c16", "c16": group, "enum_name": nm}))
     return cases
 
 
@@ -839,6 +850,20 @@ def dom_corpus(tier: str, seed: int):
                            ("r#struct", "2", None)], shape="dom_raw_idents")
         add(dd, {"feat": ["raw_idents", "implicit_after_explicit"]}, modes_i=ri)
         add(dd, {"feat": ["raw_idents", "implicit_after_explicit"]}, modes_i=ri + 3)
+        # 4f. more variants below a later run than the signed maximum of the repr holds: the per-run offset of the
+        # helper tables is a *count* and only meant modulo 2^bits (round 6, W11a: the literal `128i8` re-emitted with a
+        # user span trips the deny-by-default overflowing_literals lint -> an in-domain enum stops compiling)
+        if r == "i8":
+            for k, vs in enumerate(([*range(-128, 0), 1], [*range(-128, 1), 3, 4, 6], [*range(-100, 30), 40, 42])):
+                items = [("V%d" % i, str(v), None) for i, v in enumerate(vs)]
+                dd = make_decl(r, items, shape="dom_i8_many_before_later_%d" % k)
+                add(dd, {"feat": ["size", "negative"]}, modes={"as_str": "table", "from_str": "match", "FromStr": "match", "iter": "next_and_back"})
+                add(dd, {"feat": ["size", "negative"]}, modes={"as_str": "match", "from_str": "table", "FromStr": "auto", "iter": "table"})
+                add(dd, {"feat": ["size", "negative"]}, modes={"as_str": "auto", "from_str": "auto", "FromStr": "auto", "iter": "auto"})
+        if r == "i16" and tier != "quick":
+            vs = [*range(-32768, 1), 5]
+            dd = make_decl(r, [("V%d" % i, str(v), None) for i, v in enumerate(vs)], shape="dom_i16_many_before_later")
+            add(dd, {"feat": ["size", "negative"]}, modes={"as_str": "table", "from_str": "match", "FromStr": "match", "iter": "next_and_back"})
         # 4c. enums named like prelude / core items, repr given through cfg_attr and before the derive
         # (single letters: the names generic parameters of generated methods would have)
         for ename in (["Option", "Copy", "B", "F"] if tier == "quick" else
